@@ -6,6 +6,7 @@ mod obs;
 mod out;
 mod props_mom;
 mod props_quant;
+mod props_io;
 mod props_struct;
 mod props_pair;
 mod props_hist;
@@ -46,6 +47,8 @@ fn main() {
         "C16" => props_struct::c16(&mut out, tier, &mut rng),
         "C17" => props_struct::c17(&mut out, tier, &mut rng),
         "C20" => props_struct::c20(&mut out, tier, &mut rng),
+        "C18" => props_io::c18(&mut out, tier, &mut rng),
+        "C19" => props_io::c19(&mut out, tier, &mut rng),
         "C15" => props_quant::c15(&mut out, tier, &mut rng),
         _ => { eprintln!("unknown property {}", prop); std::process::exit(2); }
     }
